@@ -156,22 +156,92 @@ def term (h : Nat) (t : T String) : List String := (termAcc h [] t []).reverse
 
 /-! ### Merkle proofs (trie_merkle_proof.go) -/
 
-/-- One audit-path element: the sibling subtree (its hash is what the Go code appends). -/
+/-- A sibling subtree on the audit path: its height, the path prefix leading to it, the subtree.
+What the Go code appends is its hash (`lnode[:HashLength]`, or `DefaultLeaf` for an empty sibling). -/
+abbrev Sib (V : Type) := Nat × List Bool × T V
+
 structure Proof (V : Type) where
   /-- siblings, deepest first (Go appends while returning from the recursion) -/
-  ap : List (T V)
+  ap : List (Sib V)
   included : Bool
-  /-- (proofKey, proofVal): the foreign leaf on the path of a non-included key, as remaining bits -/
+  /-- (proofKey, proofVal): the foreign leaf met on the path of a non-included key (full key) -/
   proofKV : Option (List Bool × V)
+  /-- the value of an included key -/
   value : Option V
 
-/-- `Trie.merkleProof`. -/
-def merkleProof {V : Type} : T V → List Bool → Proof V
-  | .empty, _ => ⟨[], false, none, none⟩
-  | .leaf sk sv, k => if sk = k then ⟨[], true, none, some sv⟩ else ⟨[], false, some (sk, sv), some sv⟩
-  | .node l r, b :: k =>
-    if b then let p := merkleProof r k; { p with ap := p.ap ++ [l] }
-    else let p := merkleProof l k; { p with ap := p.ap ++ [r] }
-  | .node _ _, [] => ⟨[], false, none, none⟩
+/-- `Trie.merkleProof` at height `h`, below path prefix `p`, for the remaining key bits `k`. -/
+def merkleProof {V : Type} : Nat → List Bool → T V → List Bool → Proof V
+  | _, _, .empty, _ => ⟨[], false, none, none⟩
+  | _, p, .leaf sk sv, k => if sk = k then ⟨[], true, none, some sv⟩ else ⟨[], false, some (p ++ sk, sv), none⟩
+  | h, p, .node l r, b :: k =>
+    if b then
+      let pr := merkleProof (h - 1) (p ++ [true]) r k
+      { pr with ap := pr.ap ++ [(h - 1, p ++ [false], l)] }
+    else
+      let pr := merkleProof (h - 1) (p ++ [false]) l k
+      { pr with ap := pr.ap ++ [(h - 1, p ++ [true], r)] }
+  | _, _, .node _ _, [] => ⟨[], false, none, none⟩
+
+abbrev Bytes := List UInt8
+
+/-- The hash function and the key encoding are parameters: `H` is applied to the concatenation of
+the Go `hash(data...)` arguments; `enc` packs the 256 key bits into 32 bytes. -/
+structure HashCtx where
+  H : Bytes → Bytes
+  enc : List Bool → Bytes
+
+/-- `[]byte{byte(height)}` -/
+def byteOf (h : Nat) : UInt8 := UInt8.ofNat (h % 256)
+
+/-- `DefaultLeaf` -/
+def defaultLeaf : Bytes := [0]
+
+/-- The hash by which a parent refers to a subtree (`leafHash` / `interiorHash`; an empty child is `DefaultLeaf`). -/
+def hashT (c : HashCtx) : Nat → List Bool → T Bytes → Bytes
+  | _, _, .empty => defaultLeaf
+  | h, p, .leaf k v => c.H (c.enc (p ++ k) ++ v ++ [byteOf h])
+  | h, p, .node l r => c.H (hashT c (h - 1) (p ++ [false]) l ++ hashT c (h - 1) (p ++ [true]) r)
+
+/-- `Trie.Root`: nil for the empty trie. -/
+def rootOf (c : HashCtx) (H : Nat) (t : T Bytes) : Bytes :=
+  match t with
+  | .empty => []
+  | t => hashT c H [] t
+
+/-- `verifyInclusion`, recursing from the root: key bits from the top, siblings *root first*
+(the Go code indexes `ap[len(ap)-keyIndex-1]`), `leaf` the hash at the bottom of the path. -/
+def vUp (c : HashCtx) : List Bool → List Bytes → Bytes → Bytes
+  | b :: ks, s :: rest, leaf => if b then c.H (s ++ vUp c ks rest leaf) else c.H (vUp c ks rest leaf ++ s)
+  | _, _, leaf => leaf
+
+/-- `Trie.VerifyInclusion` (`ap` deepest first, as produced by `MerkleProof`). -/
+def verifyInclusion (c : HashCtx) (H : Nat) (root : Bytes) (ap : List Bytes) (key : List Bool) (value : Bytes) : Bool :=
+  root == vUp c key ap.reverse (c.H (c.enc key ++ value ++ [byteOf (H - ap.length)]))
+
+/-- `Trie.VerifyNonInclusion`. `proofKey = none` is Go's `len(proofKey) == 0`. -/
+def verifyNonInclusion (c : HashCtx) (H : Nat) (root : Bytes) (ap : List Bytes) (key : List Bool)
+    (value : Bytes) (proofKey : Option (List Bool)) : Bool :=
+  match proofKey with
+  | none => root == vUp c key ap.reverse defaultLeaf
+  | some pk =>
+    verifyInclusion c H root ap pk value && (key.take ap.length == pk.take ap.length)
+
+/-- Compressed proofs: `bits` says, root first, whether the sibling at that depth is stored
+(`bitIsSet(bitmap, length-keyIndex-1)`), `ap` holds the stored siblings root first
+(`ap[len(ap)-apIndex-1]`). A set bit with no sibling left is Go's index-out-of-range panic: `none`. -/
+def vUpC (c : HashCtx) : List Bool → List Bool → List Bytes → Bytes → Option Bytes
+  | b :: ks, true :: bits, s :: rest, leaf =>
+    (vUpC c ks bits rest leaf).map fun x => if b then c.H (s ++ x) else c.H (x ++ s)
+  | _ :: _, true :: _, [], _ => none
+  | b :: ks, false :: bits, ap, leaf =>
+    (vUpC c ks bits ap leaf).map fun x => if b then c.H (defaultLeaf ++ x) else c.H (x ++ defaultLeaf)
+  | _, _, _, leaf => some leaf
+
+/-- The plain audit path a compressed proof stands for (root first). -/
+def expand : List Bool → List Bytes → Option (List Bytes)
+  | true :: bits, s :: rest => (expand bits rest).map (s :: ·)
+  | true :: _, [] => none
+  | false :: bits, ap => (expand bits ap).map (defaultLeaf :: ·)
+  | [], _ => some []
 
 end Aergo.Trie
